@@ -361,6 +361,7 @@ func pmCorpus(t *tr.Trace) {
 				r++
 			}
 		}
+		h.dump() // the ring of intervals is full and has been recycled: exactly maxEntries slots
 		for j := 0; j < run; j++ {
 			h.arrive(r, 0, false)
 			r++
@@ -369,6 +370,7 @@ func pmCorpus(t *tr.Trace) {
 			h.arrive(r-back, 0, false)
 			h.reverse(uint16(h.ref.out(r - back)))
 		}
+		h.dump()
 	}
 	// retire fires inside Drop: an interval that has lived for 16384 (+ k*8192)
 	// packets, then a run of withheld packets straddling the threshold, then
